@@ -9,6 +9,9 @@ std::uint32_t yk_nondet_u32(void);
 std::uint8_t yk_nondet_u8(void);
 std::uint8_t yk_nondet_bool(void);
 void yk_assume(bool c);
+void yk_watch(const void* p);                     // count hooked LOAD/STORE steps on one address
+std::uint32_t yk_watch_store_count(void);
+std::uint32_t yk_watch_load_count(void);
 void yk_assert_at(bool c, std::uint32_t line);   // ll2c turns this into __CPROVER_assert(c, "yk:<line>")
 void yk_reach_at(std::uint32_t line);            // ... into __CPROVER_assert(0, "reach:<line>"): the vacuity witness, MUST fail
 }
